@@ -17,8 +17,11 @@ func init() {
 		id   int
 	}{{"C01", 192}, {"C06", 693}} {
 		base, id := generators[p.prop], p.id
+		fastID := map[int]int{192: 193, 693: 694}[id]
 		generators[p.prop] = func(r *rng, n int) {
-			genThriftSkipPrims(g2cRng(r), id)
+			g := g2cRng(r)
+			genThriftSkipPrims(g, id)
+			genSkipFast(g, fastID)
 			base(r, n)
 		}
 	}
@@ -157,5 +160,31 @@ func genProtoSkip(r *rng, id int) {
 			}
 		}
 		emit(b, len(b), r.intn(8))
+	}
+}
+
+// 193 (C01) / 694 (C06): SkipGo on a LIST / SET / MAP header with fixed-size element types and a payload of given length: the count x
+// width product must be exact (counts up to 2^31-1 with short payloads; a product computed in int32 would wrap and "succeed")
+func genSkipFast(r *rng, id int) {
+	fixed := []thrift.Type{thrift.BOOL, thrift.BYTE, thrift.I16, thrift.I32, thrift.I64, thrift.DOUBLE}
+	counts := []int64{0, 1, 2, 3, 255, 65536, 1 << 28, 1 << 29, 1<<29 + 1, 1 << 30, 1<<30 + 3, 1<<31 - 1, 268435457, 536870913, int64(r.intn(1 << 31))}
+	for _, kt := range fixed {
+		for _, sz := range counts {
+			for _, pay := range []int{0, 1, 7, 8, 16, 24, 40} {
+				// list
+				buf := []byte{byte(kt), byte(sz >> 24), byte(sz >> 16), byte(sz >> 8), byte(sz)}
+				buf = append(buf, r.bytes(pay)...)
+				p := thrift.NewBinaryProtocol(buf)
+				err := p.SkipGo(thrift.LIST, 8)
+				out.emit(id, fi(0), fi(int(kt)), fi(0), fn(sz), fi(pay), fi(b2i(err != nil)), fi(p.Read))
+				// map
+				vt := fixed[r.intn(len(fixed))]
+				mbuf := []byte{byte(kt), byte(vt), byte(sz >> 24), byte(sz >> 16), byte(sz >> 8), byte(sz)}
+				mbuf = append(mbuf, r.bytes(pay)...)
+				q := thrift.NewBinaryProtocol(mbuf)
+				err = q.SkipGo(thrift.MAP, 8)
+				out.emit(id, fi(1), fi(int(kt)), fi(int(vt)), fn(sz), fi(pay), fi(b2i(err != nil)), fi(q.Read))
+			}
+		}
 	}
 }
